@@ -5,31 +5,45 @@
 // For every input statement that parses, K re-layouts of its token sequence are built (other
 // whitespace / comments between the tokens, keyword tokens case-flipped, extra leading / trailing
 // semicolons) and parser.Explain of the re-laid-out text is compared with the baseline's.  The
-// interior of a bracketed operand of a '::' cast is left byte-identical (the property's stated
-// exception).  See gen.go for the exact generator, spans.go for the token-span reconstruction,
-// shrink.go for the minimiser.
+// interior of an array / tuple literal that is the operand of a '::' cast is left byte-identical
+// (the property's stated exception).  gen.go: the generator; spans.go: token spans, the '::'
+// regions, which tokens are case-flipped; shrink.go: the minimiser.
 //
-// Input : one statement per line on stdin or -in FILE; plain text, or with -hex lowercase hex of
+// Input: one statement per line on stdin or -in FILE; plain text, or with -hex lowercase hex of
+// the statement bytes ("-" = empty).  The statement index is the 0-based line number.
 //
-//	the statement bytes ("-" = empty).
+// Flags:
 //
-// Flags : -k N        variants per statement (default 8; 0..4 boundary separators, 5 minimal, 6.. random)
-//
-//	-seed N     default $VERIF_SEED, default 1; generator of (statement i, variant v) is
+//	-k N        variants per statement (default 8): 0..4 every gap " ", "\n", "/**/", "-- c\n",
+//	            U+00A0; 5 minimal (gaps removed where the neighbours stay two tokens); 6.. random
+//	-seed N     default $VERIF_SEED, default 1; the generator of (statement i, variant v) is
 //	            splitmix64 seeded from (seed, i, v), so one case replays alone
-//	-only I     run statement index I (0-based line number) only;  -onlyv V: only variant V
+//	-only I     run statement I only; -onlyv V: variant V only
 //	-shrink     minimise every BAD variant (default true)
 //	-summary    print a final SUMMARY line
-//	-soft       additionally case-flip IDENT tokens that look like contextual keywords
-//	            (spelling absent, case-insensitively, from the baseline EXPLAIN); off by default
-//	            because the property only speaks of keywords, and IDENT-kind words are not
-//	            told apart from names by the lexer
+//	-hex        input lines are hex
+//	-dump       print every variant (VARIANT <idx> v=<v> <%q>)
+//	-nofreeze   positive control: re-lay out the inside of '::' operands too (the exception
+//	            becomes visible as BAD results)
+//	-soft       additionally case-flip IDENT tokens that look like contextual keywords (spelling
+//	            not echoed at a word start by the baseline EXPLAIN); off by default because the
+//	            lexer does not tell such words from names
+//	-timeout D  context timeout per Parse call (default 5s); the parser also runs under a step
+//	            budget of 50 x baseline steps + 1e6 (VerifSetBudget), exceeding it counts as a panic
 //
-// Output: skip <idx> <reason> | ok <idx> <nvariants> | BAD <idx> <hex variant> <baseline line ⟂ variant line>
+// Output, one line per event:
 //
-//	MIN <idx> <hex minimal variant> | <%q text> | <remaining changes> | <diff>
-//	GEN-MISMATCH <idx> <hex variant>    (the harness built a text with another token sequence)
+//	skip <idx> <reason>          parse-error [panic] | span-mismatch ... | nul-byte | empty
+//	ok <idx> <nvariants>
+//	BAD <idx> <hex variant> <difference>
+//	MIN <idx> <hex minimal variant> | <%q text> | <remaining changes> | <difference>
+//	GEN-MISMATCH <idx> v=<v> <hex variant>
 //
+// <difference> is "line N: <baseline line> ⟂ <variant line>" of the joined EXPLAIN texts (an
+// error or panic of the variant is a difference too), or "tokens differ at #i: want ⟂ got" when
+// the lexer under test does not give the variant the statement's token sequence although the same
+// variant with plain blanks for separators has it (the lexer mishandles that kind of separator).
+// If even the blank version has other tokens the generator misplaced a separator: GEN-MISMATCH.
 // Exit code 0 unless usage error.
 //
 // Build: cd /verif/harness && go build -tags verif -o /verif/build/relayout ./cmd/relayout
@@ -209,7 +223,11 @@ func main() {
 		nStmts++
 		base := run(sql, 0)
 		if base.kind != "ok" {
-			fmt.Fprintf(out, "skip %d parse-%s\n", idx, base.kind)
+			if base.kind == "panic" {
+				fmt.Fprintf(out, "skip %d parse-error panic\n", idx)
+			} else {
+				fmt.Fprintf(out, "skip %d parse-error\n", idx)
+			}
 			nErr++
 		} else {
 			nOK++
